@@ -40,7 +40,7 @@ Section C04INV.
 
   (* per-thread invariant, as a function of the thread record, the two clocks and the trace *)
   Record GoodT (t : tid) (th : thread) (now clock : Z) (tr : list event) : Prop := mkGoodT {
-    g_issued : th_issued th <= now;
+    g_issued : 0 <= th_issued th <= now;
     g_sleep_clock : th_state th = SLEEPING -> clock <= th_ts th <= MAX64;
     g_usleep : forall d, cur_op t th = Some (OCore (OUsleep d)) ->
       (th_k th = [] \/ th_k th = [1] \/ th_k th = [2] \/ th_k th = [3]) /\
@@ -72,7 +72,7 @@ Section C04INV.
 
   (* what the theorems say about one trace event *)
   Definition EvOK (tr : list event) (ev : event) : Prop :=
-    ev_issued ev <= ev_time ev /\
+    0 <= ev_issued ev <= ev_time ev /\
     (forall d, ev_op ev = Some (OCore (OUsleep d)) ->
        let exp := timeout_of (ev_issued ev) d in
        (ev_k ev = [1] \/ ev_k ev = [2] \/ ev_k ev = [3]) /\
